@@ -1115,7 +1115,8 @@ def rule_fromclause(P) -> RuleResult:
         def on_call2(fname, fval, recv, args, kwargs, ex, node):
             f = str(fname)
             if f.endswith('tables.get'):
-                return TAB if kind == 'table-known' else None
+                # (a default given to the lookup is what an unknown name gets)
+                return TAB if kind == 'table-known' else (args[1] if len(args) > 1 else dict(kwargs).get('default'))
             if f.split('.')[-1] == '_compile':
                 return Sym('C_SUBQUERY')
             if f.split('.')[-1] == 'SubqueryTable':
